@@ -209,29 +209,36 @@ def sigLenOfPriv (n : Nat) : Nat := if n = 24 then 34 else n + n / 2
 def certEnc (body sig : Bytes) : R Bytes :=
   runEnc [.start 0 0x7F21, .bytes (.ok body), .bytes (derEnc 0x5F37 sig), .stop 0] [] []
 
+/-- btokCVCWrap, "построить открытый ключ": the public key is derived when `pubkey_len == 0` -/
+def wrapGenPub (S : Sig) (c : Cvc) (priv : Bytes) : E × Cvc :=
+  if c.pubkey.length = 0 then
+    let k := S.pubkeyCalc priv
+    if k.1 ≠ .ok then (k.1, c) else (.ok, { c with pubkey := k.2 })
+  else (.ok, c)
+
+/-- btokCVCWrap, sign the encoded body and write SEQ { body, sig } -/
+def wrapSign (S : Sig) (c : Cvc) (body priv : Bytes) : E × Cvc × Bytes :=
+  let s := S.sign body priv
+  if s.1 ≠ .ok then (s.1, c, []) else
+  let c := { c with sig := s.2.take (sigLenOfPriv priv.length) }
+  match certEnc body c.sig with
+  | .ok cert => (.ok, c, cert)
+  | _ => (.oob, c, [])          -- ASSERT(t != SIZE_MAX)
+
+/-- btokCVCWrap from "проверить содержимое сертификата" on -/
+def wrapChecked (S : Sig) (c : Cvc) (priv : Bytes) : E × Cvc × Bytes :=
+  let code := cvcCheck S c
+  if code ≠ .ok then (code, c, []) else
+  match bodyEnc c with
+  | .ok body => wrapSign S c body priv
+  | _ => (.oob, c, [])            -- ASSERT(t != SIZE_MAX)
+
 /-- btokCVCWrap(cert, &cert_len, cvc, privkey, privkey_len), cert ≠ 0:
     (code, cvc after the call, certificate) -/
 def cvcWrap (S : Sig) (c : Cvc) (priv : Bytes) : E × Cvc × Bytes :=
   if !privLenOk priv.length then (.badInput, c, []) else
-  -- build the public key
-  let r : E × Cvc :=
-    if c.pubkey.length = 0 then
-      let k := S.pubkeyCalc priv
-      if k.1 ≠ .ok then (k.1, c) else (.ok, { c with pubkey := k.2 })
-    else (.ok, c)
-  if r.1 ≠ .ok then (r.1, r.2, []) else
-  let c := r.2
-  let code := cvcCheck S c
-  if code ≠ .ok then (code, c, []) else
-  match bodyEnc c with
-  | .ok body =>
-    let s := S.sign body priv
-    if s.1 ≠ .ok then (s.1, c, []) else
-    let c := { c with sig := s.2.take (sigLenOfPriv priv.length) }
-    match certEnc body c.sig with
-    | .ok cert => (.ok, c, cert)
-    | _ => (.oob, c, [])          -- ASSERT(t != SIZE_MAX)
-  | _ => (.oob, c, [])            -- ASSERT(t != SIZE_MAX)
+  let r := wrapGenPub S c priv
+  if r.1 ≠ .ok then (r.1, r.2, []) else wrapChecked S r.2 priv
 
 /-- how the (pubkey, pubkey_len) arguments of btokCVCUnwrap are given -/
 inductive PkArg
